@@ -1390,6 +1390,7 @@ int scpiParser_parseProgramData(lex_state_t * state, scpi_token_t * token) {
     int wsLen;
     int suffixLen;
     int realLen = 0;
+    int incompleteString = 0;
     realLen += scpiLex_WhiteSpace(state, &tmp);
 
     if (result == 0) result = scpiLex_NondecimalNumericData(state, token);
@@ -1407,9 +1408,14 @@ int scpiParser_parseProgramData(lex_state_t * state, scpi_token_t * token) {
         }
     }
 
-    if (result == 0) result = scpiLex_StringProgramData(state, token);
-    if (result == 0) result = scpiLex_ArbitraryBlockProgramData(state, token);
-    if (result == 0) result = scpiLex_ProgramExpression(state, token);
+    if (result == 0) {
+        char * start = state->pos;
+        result = scpiLex_StringProgramData(state, token);
+        /* incomplete string consumes the rest of the input - nothing more to try */
+        incompleteString = (result == 0) && (state->pos != start);
+    }
+    if (result == 0 && !incompleteString) result = scpiLex_ArbitraryBlockProgramData(state, token);
+    if (result == 0 && !incompleteString) result = scpiLex_ProgramExpression(state, token);
 
     realLen += scpiLex_WhiteSpace(state, &tmp);
 
